@@ -347,6 +347,10 @@ func (vr *variableResolver) resolve(ctx *ExecutionContext) (*Value, error) {
 							return nil, err
 						}
 						si := sv.Integer()
+						if !sv.IsInteger() {
+							// Not an index at all (nil, a string, ...) is like an index out of range
+							return AsValue(nil), nil
+						}
 						if si >= 0 && current.Len() > si {
 							current = current.Index(si)
 						} else {
